@@ -72,8 +72,9 @@ class Session:
             import tempfile
 
             self._scratch = tempfile.mkdtemp(prefix="vf_ls_")
+            self._pfile = os.path.join(self._scratch, f"net.{persist}")
             driver = drive.Driver(version, flavour, snapshot_in_callback=snapshot_in_callback, persistence=True,
-                                  persistence_file=os.path.join(self._scratch, f"net.{persist}"))
+                                  persistence_file=self._pfile)
         self.driver = driver or drive.Driver(version, flavour, snapshot_in_callback=snapshot_in_callback)
         self.model = M.Gateway(version)
         self.clock = FakeTime()
@@ -98,6 +99,8 @@ class Session:
         kind = op["op"]
         if kind == "line":
             return self._line(op["text"])
+        if kind == "burst":
+            return self._burst(op["texts"])
         if kind == "set":
             return self._set(op)
         if kind == "fw":
@@ -113,6 +116,26 @@ class Session:
                     raise Clause({"crash", "state", "sleep", "wake", "reply"}, f"save_raises.{type(exc).__name__}", f"a periodic save raised {exc!r}") from exc
                 self._check_state("after a periodic save")
                 self.labels.add("save")
+            return None
+        if kind == "restart":
+            # the controller process ends cleanly and a new gateway object starts from the persistence file
+            old = self.driver
+            pers = old.gw.tasks.persistence
+            if pers is None or self._scratch is None:
+                return None
+            try:
+                pers.need_save = True
+                pers.save_sensors()
+                new = drive.Driver(self.version, old.flavour, snapshot_in_callback=old.snapshot_in_callback, persistence=True, persistence_file=self._pfile)
+                new.gw.tasks.persistence.safe_load_sensors()
+            except Exception as exc:  # pylint: disable=broad-except
+                raise Clause({"crash", "state", "sleep", "wake", "reply"}, f"restart_raises.{type(exc).__name__}", f"saving / loading at a restart raised {exc!r}") from exc
+            new.cb_raise = old.cb_raise
+            self.driver = new
+            self.model.restart()
+            self.sent_before_restart = getattr(self, "sent_before_restart", 0) + len(old.sent_log())
+            self._check_state("after a restart from the persistence file")
+            self.labels.add("restart")
             return None
         if kind == "metric":
             self.driver.gw.metric = bool(op["value"])
@@ -158,10 +181,62 @@ class Session:
         self.labels.update(exp.labels)
         if exp.malformed_fw and model.nodes[fields[0]].ota != {"idle"}:
             self.labels.add("ota-malformed-live")
-        self._resolve_id(exp, fields)
+        self._resolve_id(exp, fields, step)
         self._check_emissions(step, exp, sleeping_before, inbound=fields)
         self._check_callbacks(step, exp, fields)
         self._check_state(f"after line {text!r}")
+        return step
+
+    def _burst(self, texts):
+        """Lines that arrive in one read: every one is queued before the first queued job runs (what the
+        threaded gateways do when a chunk carries several lines). Generated from frames that are valid, are no
+        id / firmware requests and no wake-up announcements. Emissions are compared as a multiset (the order
+        between replies and deferred commands of different lines is not pinned), callbacks in order."""
+        model = self.model
+        frames = []
+        for text in texts:
+            fields = codec.decode(text)
+            if V.validate(self.version, fields) is not True:
+                raise ValueError(f"burst contains a frame that is not valid: {text!r}")
+            frames.append(fields)
+        sleeping_before = {nid for nid, n in model.nodes.items() if n.sleeping}
+        step = self.driver.burst(texts)
+        if step.exc is not None:
+            raise Clause({"crash"}, f"crash.{type(step.exc).__name__}", f"lines {texts!r} made the pump raise {type(step.exc).__name__}: {step.exc}")
+        want, cbs = [], list(step.callbacks)
+        for fields in frames:
+            exp = model.inbound(fields)
+            self.labels.update(exp.labels)
+            if exp.id_request or exp.ota is not None or exp.wake is not None:
+                raise ValueError(f"burst contains an id / firmware / wake-up frame: {fields}")
+            want.extend(exp.sent)
+            mine = []
+            if cbs and tuple(cbs[0][0]) == tuple(fields):
+                mine.append(cbs.pop(0))
+            shadow = Step_like(mine)
+            self._check_callbacks(shadow, exp, fields)
+        if cbs:
+            raise Clause({"callback"}, "callback_unexpected", f"lines {texts!r}: callbacks {[c[0] for c in cbs]} do not belong to the lines in order")
+        got = []
+        for line in step.sent:
+            try:
+                f = codec.decode(line)
+            except codec.Malformed as exc:
+                raise Clause({"reply"}, "emitted_malformed", f"emitted {line!r} does not decode: {exc}") from exc
+            if codec.encode(f) != line:
+                raise Clause({"reply"}, "emitted_not_canonical", f"emitted {line!r}, canonical form {codec.encode(f)!r}")
+            if V.validate(self.version, f) is False:
+                raise Clause({"reply"}, "emitted_invalid", f"emitted {line!r} is not valid for version {self.version}")
+            if f[0] in sleeping_before and f[2] != T.STREAM:
+                raise Clause({"sleep"}, "sent_to_sleeping_node", f"{line!r} left the gateway while node {f[0]} sleeps (lines {texts!r})")
+            got.append(f)
+        if sorted(strip_ack(g) for g in got) != sorted(strip_ack(w) for w in want):
+            fams = {"reply"}
+            if sleeping_before:
+                fams.add("sleep")
+            raise Clause(fams, "reply_mismatch", f"lines {texts!r} arriving in one read: emitted {[codec.encode(g) for g in got]}, prescribed (any order) {[codec.encode(w) for w in want]}")
+        self._check_state(f"after lines {texts!r}")
+        self.labels.add("burst")
         return step
 
     def _set(self, op):
@@ -222,13 +297,14 @@ class Session:
         return step
 
     def _fw_bad_path(self, op):
-        """update_fw with a firmware file that is missing or not Intel-HEX: the call is a no-op."""
+        """update_fw with a firmware file that is missing, not Intel-HEX or without any data: the call is a no-op."""
         import tempfile
 
         path = os.path.join(tempfile.gettempdir(), f"vf_no_such_fw_{os.getpid()}.hex")
-        if op["bad_path"] == "garbage":
+        content = {"garbage": ":10000000ZZZZ not intel hex\nhello\n", "empty": "", "eof_only": ":00000001FF\n"}.get(op["bad_path"])
+        if content is not None:  # "missing": no file at all; the others: a file that holds no firmware
             with open(path, "w", encoding="utf-8") as fh:
-                fh.write(":10000000ZZZZ not intel hex\nhello\n")
+                fh.write(content)
         before = self.driver.snapshot()
         try:
             step = self.driver.update_fw(op["nids"], op["type"], op["ver"], path=path)
@@ -244,7 +320,7 @@ class Session:
         return step
 
     # -- clauses ----------------------------------------------------------------
-    def _resolve_id(self, exp, fields):
+    def _resolve_id(self, exp, fields, step=None):
         if not exp.id_request:
             return
         model = self.model
@@ -253,6 +329,14 @@ class Session:
         if len(new) > 1:
             raise Clause({"state", "ids"}, "id_request_adds_many", f"id request created nodes {new}")
         if not new:
+            for line in (step.sent if step is not None else ()):
+                try:
+                    f = codec.decode(line)
+                except codec.Malformed:
+                    continue
+                if f[2] == T.INTERNAL and f[4] == 4:
+                    # an id response is an assignment: the tree must gain exactly that node
+                    raise Clause({"state", "ids", "reply"}, "id_assigned_without_new_node", f"id request {fields} answered with {line!r} but no node appeared (known {sorted(model.nodes)})")
             if model.can_allocate():
                 raise Clause({"reply", "ids"}, "id_request_unanswered", f"id request {fields} not answered although ids above {max(model.nodes) if model.nodes else 0} are free")
             value = None
@@ -404,6 +488,11 @@ class Session:
         problem = compare_projection(drive.projection(self.driver.gw), self.model.projection())
         if problem:
             raise Clause({"state"}, "state_mismatch", f"{where}: {problem}")
+
+
+class Step_like:  # pylint: disable=invalid-name,too-few-public-methods
+    def __init__(self, callbacks):
+        self.callbacks = callbacks
 
 
 def strip_ack(f):
